@@ -407,7 +407,7 @@ class StringInput:
     def process(self, callback):
         line = self.readLine()
         count = 0
-        while line:
+        while line is not None:
             callback(line)
             count += 1
             line = self.readLine()
